@@ -205,8 +205,9 @@ func SolveUnit(r *UnitResult, cfg SolverCfg) {
 	}
 	rr := make([]runRes, len(runs))
 	var rwg sync.WaitGroup
+	incMs := cfg.QuickMs * 3 / 10
 	for k, cut := range runs {
-		script, ord := r.IncrementalScript(cfg.QuickMs, cut)
+		script, ord := r.IncrementalScript(incMs, cut)
 		rr[k].order = ord
 		if len(ord) == 0 {
 			continue
@@ -218,7 +219,7 @@ func SolveUnit(r *UnitResult, cfg SolverCfg) {
 		rwg.Add(1)
 		go func(k int, file string, n int) {
 			defer rwg.Done()
-			rr[k].results, rr[k].times, rr[k].errs, _ = runSolverTimed(solvers[0], file, cfg.QuickMs, cfg.QuickMs*(n+2)+10000)
+			rr[k].results, rr[k].times, rr[k].errs, _ = runSolverTimed(solvers[0], file, incMs, incMs*(n+2)+10000)
 		}(k, file, len(ord))
 	}
 	rwg.Wait()
